@@ -293,7 +293,7 @@ func main() {
 	if *updateExpected && *prop != "" {
 		var names []string
 		for _, o := range mine {
-			if !o.Vacuous && o.Kind != "translates" && o.Kind != "contract.resolves" && o.Kind != "exists" && o.Kind != "missing" {
+			if !o.Vacuous && o.Kind != "translates" && o.Kind != "contract.resolves" && o.Kind != "exists" && o.Kind != "missing" && o.Kind != "frame" && o.Kind != "xframe" && o.Kind != "lean" {
 				names = append(names, o.Name)
 			}
 		}
